@@ -13,5 +13,5 @@ for ID in "$@"; do
   code=$?
   viol=$(echo "$out" | grep -m1 "^VIOLATION" || true)
   detail=$(echo "$out" | grep -A1 -m1 "^VIOLATION" | tail -1 | cut -c1-220)
-  echo "$(basename $(dirname $PATCH)) $ID exit=$code $viol :: $detail"
+  echo "${SEEDED_NAME:-$(basename $(dirname $PATCH))} $ID exit=$code $viol :: $detail"
 done
